@@ -4,8 +4,12 @@ from __future__ import annotations
 
 import operator
 
+import warnings
+
 import numpy as _np
 import z3
+
+warnings.filterwarnings("ignore", message="future versions will not create a writeable array from broadcast_array")
 
 from . import state
 from .alg import (Alg, Cx, SymBool, BoolCount, TRUE, FALSE, INF, NAN, ZERO, Poly, alg_abs, alg_sqrt, alg_cbrt,
